@@ -83,7 +83,7 @@ pub fn decode_history(data: &[u8]) -> HistCase {
         };
         ops.push(op);
     }
-    HistCase { universe: 6, spec, wmode, ctor: None, ops }
+    HistCase { universe: 6, spec, wmode, ctor: None, ops, huge: 0 }
 }
 
 pub fn graph_history(data: &[u8]) {
